@@ -175,6 +175,35 @@ impl MatrixSlab {
             // safely: this allocation is valid for MATRIX_ALLOC_LAYOUT
             let (haystack, bonus, rows, current_row, matrix_cells) =
                 matrix_layout.fieds_from_ptr(self.0);
+            #[cfg(nucleo_verif)]
+            {
+                let base = self.0.as_ptr() as usize;
+                crate::verif::record(crate::verif::SlabViews {
+                    haystack_len: haystack_.len(),
+                    needle_len,
+                    char_size: size_of::<C>(),
+                    slab_size: size_of::<MatcherData>(),
+                    views: [
+                        (
+                            haystack as *mut C as usize - base,
+                            haystack.len() * size_of::<C>(),
+                        ),
+                        (bonus as *mut u8 as usize - base, bonus.len()),
+                        (
+                            rows as *mut u16 as usize - base,
+                            rows.len() * size_of::<u16>(),
+                        ),
+                        (
+                            current_row as *mut ScoreCell as usize - base,
+                            current_row.len() * size_of::<ScoreCell>(),
+                        ),
+                        (
+                            matrix_cells as *mut MatrixCell as usize - base,
+                            matrix_cells.len() * size_of::<MatrixCell>(),
+                        ),
+                    ],
+                });
+            }
             // copy haystack before creating references to ensure we don't create
             // references to invalid chars (which may or may not be UB)
             haystack_
